@@ -179,8 +179,20 @@ func (t *sseClientTransport) start(ctx context.Context) error {
 		}
 	}
 
+	// The stream outlives ctx on purpose, but establishing it is part of the caller's operation:
+	// until the response headers have arrived, cancelling ctx abandons the attempt.
+	connected := make(chan struct{})
+	go func() {
+		select {
+		case <-ctx.Done():
+			cancel()
+		case <-connected:
+		}
+	}()
+
 	// Send the request.
 	resp, err := t.httpReqHandler.Handle(sseCtx, t.httpClient, req)
+	close(connected)
 	if err != nil {
 		return fmt.Errorf("%w: %v", ErrHTTPRequestFailed, err)
 	}
